@@ -201,6 +201,8 @@ func genCase(t *rapid.T) Case {
 	unknownH := func() int {
 		return rapid.SampledFrom([]int{-1, -2, -3, len(md.slots), len(md.slots) + 7}).Draw(t, "unkh")
 	}
+	// per-case bias so that both many-readers and writer-centred sequences are frequent
+	bias := rapid.SampledFrom([]string{"mixed", "mixed", "readers", "writer"}).Draw(t, "bias")
 	for i := 0; i < n; i++ {
 		w, nr := md.writer(), md.readers()
 		open := md.openSlots()
@@ -214,28 +216,52 @@ func genCase(t *rapid.T) Case {
 		add("nodeinfo", 1)
 		add("badsize", 3)
 		add("badhandle", 2)
+		if len(fin) > 0 {
+			add("badhandle", 2)
+		}
 		add("batchedge", 1) // 0 or 1001 operations: never takes the lock
 		if w < 0 {
 			add("scan", 4)
 			add("stats", 1)
 			if nr < 3 {
-				add("begin_ro", 4)
+				switch {
+				case bias == "readers":
+					add("begin_ro", 9)
+				case bias == "writer":
+					add("begin_ro", 1)
+				default:
+					add("begin_ro", 4)
+				}
 			}
 		}
 		if free {
-			add("begin_rw", 4)
+			switch bias {
+			case "readers":
+				add("begin_rw", 1)
+			case "writer":
+				add("begin_rw", 9)
+			default:
+				add("begin_rw", 4)
+			}
 			add("batch", 3)
 		}
 		if len(open) > 0 {
 			add("txget", 4)
 			add("txscan", 4)
-			add("commit", 2)
-			add("rollback", 1)
 			if w >= 0 {
 				add("txput", 7)
 				add("txdel", 3)
+				add("commit", 3)
+				add("rollback", 1)
 			} else {
 				add("txwrite_ro", 1)
+				if nr >= 2 {
+					add("txget", 4) // alternate between the open handles
+					add("commit", 1)
+				} else {
+					add("commit", 2)
+				}
+				add("rollback", 1)
 			}
 		}
 		var r Req
